@@ -28,7 +28,9 @@
 (***************************************************************************)
 EXTENDS Integers, Sequences, TLC, Json, FiniteSets
 
-CONSTANTS BUDGET,   \* max number of AST nodes assembled by the builder
+CONSTANTS MINNODES, \* the builder may stop only after this many nodes (0 for exhaustive runs; random walks use it to grow)
+          MAXSTACK, \* at most this many unfinished/finished forms side by side (forces nesting in random walks)
+          BUDGET,   \* max number of AST nodes assembled by the builder
           FUEL,     \* machine step bound (exhaustion = case discarded, counted)
           MAXINT    \* cases whose integers leave -MAXINT..MAXINT are discarded
 
@@ -226,7 +228,7 @@ Mentions(e, n) ==
 \* R7RS leaves a reference to a name before its definition in the same body
 \* undefined; Steel hoists (D2) and constant-propagates.  Such programs are
 \* outside the property's domain and are not generated.
-UseBeforeDef(u) == \E i, j \in 1..Len(u) : i < j /\ u[j].k = "def" /\ Mentions(u[i], u[j].n)
+UseBeforeDef(u) == \E i, j \in 1..Len(u) : i <= j /\ u[j].k = "def" /\ Mentions(u[i], u[j].n)
                    /\ ~(u[i].k = "def" /\ u[i].e.k = "lam")
 
 -----------------------------------------------------------------------------
@@ -381,7 +383,8 @@ Top(n) == SubSeq(bstack, 1, n)            \* top n entries, head first
 Drop(n) == SubSeq(bstack, n + 1, Len(bstack))
 HaveExprs(n) == Len(bstack) >= n /\ \A i \in 1..n : IsExpr(bstack[i])
 
-BPush(e, cost) == /\ nodes + cost <= BUDGET /\ bstack' = <<e>> \o bstack /\ nodes' = nodes + cost
+BPush(e, cost) == /\ nodes + cost <= BUDGET /\ Len(bstack) < MAXSTACK
+                  /\ bstack' = <<e>> \o bstack /\ nodes' = nodes + cost
 BReplace(n, e) == /\ nodes + 1 <= BUDGET /\ bstack' = <<e>> \o Drop(n) /\ nodes' = nodes + 1
 
 Prim1 == {"car", "cdr", "null?", "not", "emit", "length"}
@@ -417,7 +420,7 @@ RevSeq(s) == IF s = << >> THEN << >> ELSE RevSeq(Tail(s)) \o <<Head(s)>>
 \* Finish building: the stack (bottom first) becomes the forms of the program.  They are
 \* run either as ONE unit or as one unit per form (Steel treats the two differently: D2, D6).
 BuildDone ==
-  /\ phase = "build" /\ bstack # << >>
+  /\ phase = "build" /\ bstack # << >> /\ nodes >= MINNODES
   /\ LET forms == RevSeq(bstack)
          pre == << <<Def("x", I(0)), Def("y", I(1)), Def("f", Lam(<<"x">>, "", Var("x")))>> >>
      IN \E split \in BOOLEAN :
